@@ -246,6 +246,23 @@ def run_c08(ctx):
     ctx.assumptions.append("the Resolver-interface-only limitation documented by ggql is outside the claim: these families run on the reflection strategy")
 
 
+def subscription_selections(ctx):
+    """C09 for the selections a subscription applies to its events: Registry!MsgOf has keys conditioned (on the field, on an
+    inline fragment, on a fragment spread) on a variable of the subscriber's own request. The histories and the harness are
+    those of the registry family; only what is delivered is judged here (counts, order and clean-up are C19's)."""
+    import registry
+    vecs, uni = registry.model_and_vectors(ctx, [1], 2, "MCPoolA", "MCInitSome")
+    sub = vlib.Ctx(ctx.prop, ctx.tier)
+    sub.scratch = ctx.scratch
+    registry.replay(sub, vecs, uni, "subscription-selections")
+    ctx.evaluations += sub.evaluations
+    ctx.extra["subscription_histories"] = len(vecs)
+    for v in sub.violations:
+        if "delivered" in v.get("what", ""):
+            v["from"] = "subscription-selections"
+            ctx.violations.append(v)
+
+
 def leaf_list_failures(ctx):
     """C06 for the members of lists of leaves in every Go shape a resolver can hand over (typed slices of every kind,
     lists of lists, ListResolvers): Coerce.tla prescribes, per member, the value or null plus ONE error at [key, index].
@@ -298,6 +315,8 @@ def run(ctx):
             absorb(ctx, trep, "replay-utop", aspects, devs, ctx.prop)
         if ctx.prop == "C06":
             leaf_list_failures(ctx)
+        if ctx.prop == "C09":
+            subscription_selections(ctx)
         record_and_judge(ctx, uni, "record", aspects, devs, ctx.prop, 1500 if ctx.tier == "quick" else 12000,
                          universes=12 if ctx.tier == "quick" else 60)
         ctx.exhaustive = True
